@@ -106,8 +106,9 @@ def is_nontrivial(seq, preset) -> bool:
 
 # ----------------------------------------------------------------- scale family
 SCALE_PRESETS = ((4000, 150, 32), (128, 16, 16), (129, 17, 3), (8, 2, 1), (256, 0, 0),
-                 (8, 40, 4))  # (the last: a prefix table larger than the name table)
-SCALE_KINDS = ("names300", "runs", "longstrings", "bulk1100")
+                 (8, 40, 4),  # (a prefix table larger than the name table)
+                 (300, 20, 40))  # (sizes that are no multiple of 256, filled beyond 256)
+SCALE_KINDS = ("names300", "runs", "longstrings", "bulk1100", "mega")
 
 
 def scale_seq(kind: str, arity: int) -> list:
@@ -126,6 +127,9 @@ def scale_seq(kind: str, arity: int) -> list:
         for i in range(1100):  # beyond internal batch sizes such as 1000
             out.append((I(f"http://b{i % 7}.example/s{i}"), I(f"http://b{i % 3}.example/p"),
                         L(str(i))))
+    elif kind == "mega":
+        for i in range(5):  # two megabytes of output, several frames above 256 KiB
+            out.append((I(f"http://a/s{i}"), I("http://a/p"), L(chr(97 + i) * 400_000)))
     elif kind == "runs":
         for i in range(260):
             s = I(f"http://a/s{i // 5}") if i % 11 else B(f"b{i // 5}")
